@@ -429,10 +429,29 @@ let check_sqltoks (x : qobs) input (e : expr) =
     match tr e, xtext o.(8) with
     | Some (ts, _), Some sql ->
         bump "c03.tr"; if side e then bump "c03.tr_and_side";
+        if side e && text_ok e && names_ok e then bump "c03.all_premises_of_the_end_to_end_theorem";
         let long_name = exists_node (fun n -> match n with E (VCol c, _, _, _, _) -> List.length c > 63 | _ -> false) e in
         if not long_name then begin
           bump "corr.SqlToks";
           if pg_lex (chars_of_string sql) <> ts then record_mismatch "SqlToks" (input @ [("sql", sql)])
+        end
+    | _ -> ()
+
+(* the same tie for the parameterized text (Spec/SqlFragP.trp, C04 (c)): the scanner model on the implementation's text with its ?
+   numbered $1, $2, ... gives the tokens trp predicts, and the returned parameters are the ones trp lists *)
+let check_sqltoks_param (x : qobs) input (e : expr) =
+  let o = x.o in
+  if not (is_bad o.(9)) && eflag o.(9) = "|0" then
+    match trp e (S O), xtext o.(9) with
+    | Some ((ts, _), ps), Some sql ->
+        bump "c04.trp"; if side e then bump "c04.trp_and_side";
+        let long_name = exists_node (fun n -> match n with E (VCol c, _, _, _, _) -> List.length c > 63 | _ -> false) e in
+        if not long_name then begin
+          bump "corr.SqlToksP";
+          let (numbered, _) = number_placeholders sql in
+          let shown = String.concat "," (List.map show_value ps) in
+          if pg_lex (chars_of_string numbered) <> ts || shown <> params_of o.(9) then
+            record_mismatch "SqlToksP" (input @ [("sql", sql); ("params", params_of o.(9)); ("expected_params", shown)])
         end
     | _ -> ()
 
@@ -476,7 +495,7 @@ let check_single (x : qobs) input =
   (match tree with
    | Some t ->
        (match (try Some (parse_tree t) with Unmodelled _ -> None) with
-        | Some e -> check_params x input e; check_derivation x input e; check_sqltoks x input e;
+        | Some e -> check_params x input e; check_derivation x input e; check_sqltoks x input e; check_sqltoks_param x input e;
             (* the meaning of the query text is its parse by the model (Parse of the specification), not the implementation's own tree *)
             check_semantics x input (match x.mtree with Some m -> m | None -> e)
         | None -> ())
